@@ -211,6 +211,10 @@ def named(s: Sp) -> Dict[str, Sp]:
             if n in out and out[n] != x:
                 raise ValueError(f"two different definitions named {n}")
             out[n] = x
+        if x.k == "disc" and x.opt("inherited"):
+            # the discriminated parent class stands for the union of its subclasses:
+            # ref(<parent>) inside an alternative makes the union recursive
+            out[x.opt("inherited")] = x
 
     rec(s)
     return out
@@ -368,6 +372,8 @@ def source(root: Sp, extra_src: str = "") -> str:
         "",
     ]
     for name, d in named(root).items():
+        if d.k == "disc":
+            continue  # the parent class comes with the program's extra source
         if d.k == "enum":
             lines.append(f"class {name}({d.opt('mixin')}, Enum):" if d.opt("mixin") else f"class {name}(Enum):")
             for i, v in enumerate(d.a):
